@@ -111,7 +111,7 @@ pub fn u_term(f: &F, min_components: usize, thorough: bool) -> Vec<LTerm> {
     items.push(atom(f.e.atom.prefix_operator, "a"));
     apply_all(f, &items, 1, if thorough { 3 } else { 2 }, &mut out);
     // wide: 9 and 17 components
-    for n in [9usize, 17] {
+    for n in [4usize, 5, 6, 7, 8, 9, 16, 17, 33] {
         let elems: Vec<LTerm> = (0..n).map(|i| atom(if i % 4 == 3 { f.e.atom.prefix_variable_query } else { "" }, &format!("w{i}"))).collect();
         for c in f.connecters() {
             out.push(LTerm::Compound { connecter: c.to_string(), terms: elems.clone() });
